@@ -40,6 +40,8 @@ CLAIMED = {
          "MIR-driver rules: ADT facts joined with IR, string-match decision tables, constant propagation over the byte domain, guard dominance, template conditions"),
  "C04": ("other", "PARTIAL (end-to-end value equality is not decided). Pairing tables decided on the generated instance joined with the IR: for every argument of all 112 client methods / 112 handlers the client encoder and the server decoder are the pair the IR class prescribes with equal keys / header names / path variables / cookie prefix / element types; response serializer and client decoder paired by return class; Accept and content-type string constants agree; 204 producers match the client's 204 shortcuts per impl; handler invoked once with extracted values in IR order and its result serialized.", "4/C04",
          "MIR-driver rules: IR-joined instance validation against a pairing table, constant identity, dataflow, dominance"),
+ "C02": ("other", "PARTIAL (document acceptance rests on serde-derive / serde_json; malformed primitives inherited from C15/C16/C10/C01). Decided: generator type predicates as decision tables (constant propagation over 7 constructors x primitives) against the wire specification incl. sibling agreement; field-attribute decisions by template conditions; generated instance vs IR in both configurations: field names in order, emptiness guards iff omittable, missing_field exactly for required fields, field tables, enum value strings, alias transparency, union discriminator constant on both sides.", "4/C02",
+         "MIR-driver rules: decision-table extraction, template conditions, IR-joined instance validation of derive expansions"),
 }
 NA = {
  "C11": "Content negotiation quantifies over parsed header lists and numeric q-values; its truth lives in comparator outcomes, not in the shape of the code. The structural clauses in reach are decided under C06/C04; a mirror of this implementation's iterator chain would be a brittle proxy (DESIGN.md section 4/C11).",
@@ -76,7 +78,7 @@ def main():
         "engines": [
             {"name": "mirfacts", "path": "/verif/mirfacts", "serves_properties": sorted(CLAIMED), "kind_free_text": "rustc_private driver (nightly) dumping analysis-phase MIR, impl/ADT tables, evaluated constants as JSON facts, injected via RUSTC_WORKSPACE_WRAPPER under cargo +nightly check"},
             {"name": "rules", "path": "/verif/vf", "serves_properties": sorted(CLAIMED), "kind_free_text": "Python rule library: CFG, dominators, control dependence, copy-chain dataflow, decision tables, typestate; one module per property"},
-            {"name": "tmpl", "path": "/verif/tmpl", "serves_properties": ["C04", "C08", "C09", "C10", "C14", "C19"], "kind_free_text": "syn-based quote!-template extractor for conjure-codegen / conjure-macros"},
+            {"name": "tmpl", "path": "/verif/tmpl", "serves_properties": ["C02", "C04", "C08", "C09", "C10", "C14", "C19"], "kind_free_text": "syn-based quote!-template extractor for conjure-codegen / conjure-macros"},
         ],
         "checks": checks,
         "not_applicable": na,
